@@ -38,7 +38,14 @@ PermInputs == { L(<<x, x>>) : x \in PermScalars } \cup { L(<<x>>) : x \in PermSc
 \* a bound TypeVar means its bound
 TVarTypes == { <<"tvarc", "T", <<"union", s>> >> : s \in { q \in Seqs(2) : q[1][1] \in {"int", "str", "float", "date"} /\ q[2][1] \in {"int", "str", "bool", "list"} } }
              \cup { <<"tvarb", "T", b>> : b \in { <<"int">>, <<"date">>, <<"list", <<"int">> >>, PT } }
-Types == Unions \cup Literals \cup TVarTypes
+\* members whose constructors reject text with exceptions OUTSIDE the ValueError / TypeError families (decimal.InvalidOperation,
+\* ZeroDivisionError, re.error, OverflowError): a rejecting member is skipped whatever it raised, the next member is tried
+RaiseMembers == { <<"text", "decimal">>, <<"text", "fraction">>, <<"text", "pattern">> }
+RaiseUnions == { <<"union", <<m, <<"str">> >> >> : m \in RaiseMembers } \cup { <<"union", <<m, <<"int">>, <<"str">> >> >> : m \in RaiseMembers }
+               \cup { <<"union", <<m, <<"list", <<"int">> >> >> >> : m \in RaiseMembers }
+               \cup { <<"union", << <<"int">>, <<"str">> >> >>, <<"union", << <<"int">>, <<"text", "decimal">>, <<"str">> >> >> }
+RaiseInputs == { S("garbage"), S("1/0"), S("("), S("1.5"), S("1/3"), S("a+"), <<"fspecial", "inf">>, S("NaN"), S("Infinity"), L(<<I(1)>>) }
+Types == Unions \cup Literals \cup TVarTypes \cup RaiseUnions
 AllTypes == Types \cup { Holder(t) : t \in Types } \cup PermShapes \cup { Holder(t) : t \in { q \in PermShapes : q[1] = "tuple" } }
 
 JScalars == { I(0), I(1), I(-7), <<"float", 15, -1>>, <<"float", 1, 0>>, B(TRUE), B(FALSE), None,
@@ -52,6 +59,8 @@ Init == T = <<"start">> /\ v = <<"nov">> /\ kind = "start"
 Next == \/ kind = "start" /\ T' \in AllTypes /\ v' = v /\ kind' = "type"
         \/ kind = "type" /\ T' = T /\ v' \in Range(Smp(T)) /\ kind' = "value"
         \/ kind = "type" /\ T' = T /\ v' \in (IF T \in PermShapes THEN J \cup PermInputs ELSE J) /\ kind' = "input"
+        \/ kind = "type" /\ (T \in RaiseUnions \/ (T[1] = "dc" /\ T[2] = "H" /\ FType(DcFields(T)[1]) \in RaiseUnions)) /\ T' = T
+           /\ v' \in (IF T[1] = "dc" THEN { Dct(<< <<S("f"), x>> >>) : x \in RaiseInputs } ELSE RaiseInputs) /\ kind' = "input"
         \/ kind = "type" /\ T[1] = "dc" /\ T[2] = "H" /\ FType(DcFields(T)[1]) \in PermShapes /\ T' = T
            /\ v' \in { Dct(<< <<S("f"), L(<<x, x>>)>> >>) : x \in PermScalars } /\ kind' = "input"
 
